@@ -73,7 +73,7 @@ package mvp6_2
 // counter is positive when the loop is left.
 // (C07; F31) nothing the queue could take is left in the bus buffer (what
 // Connect establishes): invariant of the write-back drain inside the flush
-// path (loops 8, 9 of Run), which otherwise never ends.
+// path (loops 10, 11 of Run), which otherwise never ends.
 //@ spec func connected(b *comp.BufferedBus[risc.ExecutionContext], c int) bool = len(b.buffer) > 0 ==> len(b.queue) == b.queueLength || b.buffer[0].availableFromCycle > c
 //@ func (*CPU).Run
 //@   assume-before (*memoryManagementUnit).flush: wfMMU(m.memoryManagementUnit) && m.memoryManagementUnit.l3.lineLength == 64 && allocated(m.memoryManagementUnit.ctx.Memory) && (forall j :: 0 <= j && j < len(m.memoryManagementUnit.l3.lines) ==> !sameArray(m.memoryManagementUnit.l3.lines[j].Data, m.memoryManagementUnit.ctx.Memory) && int32(m.memoryManagementUnit.l3.lines[j].Boundary[0]) <= 1073741824)
@@ -88,10 +88,9 @@ package mvp6_2
 //@   -- by a unit scanned before it: a wrong-path instruction must not make the run fail (known finding F22)
 //@   return 0: !flush
 //@   -- when Run returns no register write is left speculative (final commit)
-//@   return 2: len(m.ctx.Transaction) == 0 && (forall r risc.RegisterType :: !(r in m.ctx.Transaction))
+//@   return 3: len(m.ctx.Transaction) == 0 && (forall r risc.RegisterType :: !(r in m.ctx.Transaction))
 //@   loop 0: invariant cycle >= 0 && wired(m)
 //@   loop 0: exit writesDone(m)
-//@   loop 0: exit executeUnitsIdle(m)
 //@   loop 0: exit cycle >= 1
 //@   loop 1: invariant cycle >= 1 && wired(m)
 //@   -- (C03; F36) several units can request a flush in the same cycle: the OLDEST instruction
@@ -100,20 +99,25 @@ package mvp6_2
 //@   loop 1: step !(resp.flush && (!prev(flush) || resp.sequenceID < prev(sequenceID))) ==> sequenceID == prev(sequenceID) && pc == prev(pc)
 //@   loop 1: step flush == (prev(flush) || resp.flush)
 //@   loop 2: invariant cycle >= 1 && wired(m)
-//@   loop 3: invariant cycle >= 1 && wired(m)
-//@   loop 4: invariant cycle >= 1 && wired(m)
+//@   -- (C09; F20 on these variants, fixed) at `ret` the units still busy with older instructions are run
+//@   -- to completion before the write-back drain: loop 3 is left only with every execute unit idle
+//@   loop 3: invariant cycle >= 1 && wired(m) && (!busy ==> executeUnitsIdle(m))
+//@   loop 3: exit executeUnitsIdle(m)
+//@   loop 4: invariant cycle >= 1 && wired(m) && (!busy ==> (forall j :: 0 <= j && j < _idx4 ==> (m.executeUnits[j].Coroutine.isStart && len(m.executeUnits[j].Coroutine.list) == 0)))
 //@   loop 5: invariant cycle >= 1 && wired(m)
 //@   loop 6: invariant cycle >= 1 && wired(m)
 //@   loop 7: invariant cycle >= 1 && wired(m)
-//@   loop 8: invariant cycle >= 1 && wired(m) && connected(m.writeBus, cycle + 1)
-//@   loop 9: invariant cycle >= 1 && wired(m) && connected(m.writeBus, cycle + 1)
-//@   loop 10: invariant cycle >= 1 && wired(m)
-//@   loop 11: invariant cycle >= 1 && wired(m)
+//@   loop 8: invariant cycle >= 1 && wired(m)
+//@   loop 9: invariant cycle >= 1 && wired(m)
+//@   loop 10: invariant cycle >= 1 && wired(m) && connected(m.writeBus, cycle + 1)
+//@   loop 11: invariant cycle >= 1 && wired(m) && connected(m.writeBus, cycle + 1)
 //@   loop 12: invariant cycle >= 1 && wired(m)
 //@   loop 13: invariant cycle >= 1 && wired(m)
 //@   loop 14: invariant cycle >= 1 && wired(m)
 //@   loop 15: invariant cycle >= 1 && wired(m)
 //@   loop 16: invariant cycle >= 1 && wired(m)
+//@   loop 17: invariant cycle >= 1 && wired(m)
+//@   loop 18: invariant cycle >= 1 && wired(m)
 
 // ---------------------------------------------------------------- memory management unit (C05)
 // (instantiated from /verif/contracts/proc/mvp3 by gen: same text, same proof)
